@@ -203,7 +203,7 @@ impl Property for C24 {
         ]
     }
     fn cases(&self, tier: Tier) -> u32 {
-        tier.pick(3000, 150_000)
+        tier.pick(9000, 150_000)
     }
     fn strategy(&self, tier: Tier) -> BoxedStrategy<Case> {
         (proptest::collection::vec(msg_strategy(), 1..tier.pick(30, 60)), any::<bool>(), any::<bool>(), proptest::collection::vec(any::<u8>(), 0..40))
